@@ -308,11 +308,12 @@ func duplicateFullTriggersFromContractedFunctionsToCallers(
 				continue
 			}
 			for _, trigger := range r.triggers {
-				// If the full trigger has a FuncParam producer or a UseAsReturn consumer, then create
-				// a duplicated (possibly controlled) full trigger from it and add the created full
-				// trigger to the caller.
+				// If the full trigger has a FuncParam producer or a return consumer (UseAsReturn, or
+				// the error-result consumers when the result of the function implements `error`),
+				// then create a duplicated (possibly controlled) full trigger from it and add the
+				// created full trigger to the caller.
 				_, isParamProducer := trigger.Producer.Annotation.(*annotation.FuncParam)
-				_, isReturnConsumer := trigger.Consumer.Annotation.(*annotation.UseAsReturn)
+				isReturnConsumer := annotation.IsReturnConsumer(trigger.Consumer)
 				if !isParamProducer && !isReturnConsumer {
 					// No need to duplicate the full trigger
 					continue
